@@ -188,6 +188,15 @@ func mergeStubs(a, b map[string]string) map[string]string {
 	return out
 }
 
+func hasHarnessStub(m map[string]string) bool {
+	for _, v := range m {
+		if strings.HasPrefix(v, "harness:") {
+			return true
+		}
+	}
+	return false
+}
+
 var defaultInit = []string{"errors", "io", "time", "unicode/utf8", "unicode", "strconv", "bytes", "strings", "math", "sort", "encoding/binary", "io/fs", "context"}
 
 func presentInit(prog *ssa.Program) []string {
@@ -523,7 +532,7 @@ func conclude(id, tier string, seed int, props *Props, outs []harnessOutcome, sm
 		}
 		for _, g := range r.Failures {
 			if k := matchKnown(kf, id, ho.Spec.Name, g); k != nil {
-				key := k.Harness + "|" + k.Label + "|" + k.SiteRe
+				key := k.What // one line per finding, however many harnesses show it
 				if !knownSeen[key] {
 					knownSeen[key] = true
 					lines = append(lines, fmt.Sprintf("KNOWN-FINDING: property=%s %s", id, k.What))
@@ -549,6 +558,11 @@ func conclude(id, tier string, seed int, props *Props, outs []harnessOutcome, sm
 					status = "not-applicable: harness uses solver-only primitives (uninterpreted functions / ghost values)"
 				case ok:
 					status = "reproduced"
+				case hasHarnessStub(mergeStubs(props.Stubs, ho.Spec.Stubs)):
+					// the engine ran with functions replaced by name (hash, signature, recovery
+					// models); the native build runs the real ones, so the vector need not carry over
+					status = "not-applicable: the harness runs with by-name stubs, the native build with the real functions (native run did not fail)"
+					art["native_output"] = out
 				default:
 					status = "not-reproduced"
 					art["native_output"] = out
